@@ -95,7 +95,7 @@ func (fe *FnExec) initHeapArr(key string, s *Sort) Term {
 	if t, ok := fe.initHeap[key]; ok {
 		return t
 	}
-	name := "|H0." + key + "|"
+	name := "|H0." + shortFn(key) + "|"
 	fe.addPrelude("heap:"+key, "(declare-const "+name+" "+s.String()+")")
 	t := Term{name, s}
 	fe.initHeap[key] = t
@@ -103,11 +103,11 @@ func (fe *FnExec) initHeapArr(key string, s *Sort) Term {
 }
 
 func (fe *FnExec) embFunc(owner, field string) string {
-	name := "|emb." + owner + "." + field + "|"
+	name := "|emb." + shortFn(owner) + "." + field + "|"
 	key := "emb:" + owner + "." + field
 	if !fe.preludeSet[key] {
 		code := fe.typeCode("emb:" + owner + "." + field)
-		inv := "|embinv." + owner + "." + field + "|"
+		inv := "|embinv." + shortFn(owner) + "." + field + "|"
 		fe.addPrelude(key, "(declare-fun "+name+" (Int) Int)\n(declare-fun "+inv+" (Int) Int)\n"+
 			"(assert (forall ((x Int)) (! (and (= ("+inv+" ("+name+" x)) x) (= (tagof ("+name+" x)) "+fmt.Sprint(code)+") (= (birth ("+name+" x)) (birth x)) (not (= ("+name+" x) 0))) :pattern (("+name+" x)))))")
 	}
